@@ -13,8 +13,9 @@
 (*    Fail    : self._failed.append(...)                                   *)
 (* The queue orders entries by (type, counter); the counter only grows, so *)
 (* the queue is one FIFO per type, lowest type first.                      *)
-(* RegData(d) / RegFire(d): discovery.register_computation first makes d   *)
-(* known, then fires the one-shot callbacks:                               *)
+(* RegData(d) / RegTest(d) / RegFire(d): discovery.register_computation    *)
+(* first makes d known, then tests whether somebody subscribed to d, then  *)
+(* fires the one-shot callbacks:                                           *)
 (* Messaging._on_computation_registration re-posts the failed messages for *)
 (* d in list order.  Shutdown = Agent.clean_shutdown().                     *)
 (* The agent loop (Agent._run) is two steps: a poll of the queue (a        *)
@@ -116,8 +117,16 @@ RegData(d) ==
               /\ reg' = [reg EXCEPT ![d] = "data"]
               /\ act' = [n |-> "regdata", d |-> d]
               /\ UNCHANGED <<pc, idx, cbs, failed, q, shut, exited, apc, hist>>
+\* (2a) the registering thread tests whether anybody subscribed to d (`computation in self._computation_cbs`): if nobody did it
+\* is done - a subscription made later stays in the table; (2b) otherwise it goes on to the callbacks, the first thing
+\* Messaging._on_computation_registration does being to take the lock of the deferred list
+RegTest(d) ==
+              /\ d \in LateDests /\ reg[d] = "data"
+              /\ reg' = [reg EXCEPT ![d] = IF d \in cbs THEN "lock" ELSE "done"]
+              /\ act' = [n |-> "regtest", d |-> d]
+              /\ UNCHANGED <<pc, idx, known, cbs, failed, q, shut, exited, apc, hist>>
 RegFire(d) ==
-               /\ d \in LateDests /\ reg[d] = "data"
+               /\ d \in LateDests /\ reg[d] = "lock"
                /\ reg' = [reg EXCEPT ![d] = "done"]
                /\ IF d \in cbs /\ ~shut
                   THEN /\ q' = EnqueueAll(q, ForDest(d)) /\ failed' = NotForDest(d)
@@ -166,7 +175,7 @@ LoopExit == /\ shut /\ ~exited /\ apc = "check"
             /\ UNCHANGED <<pc, idx, known, cbs, failed, q, shut, apc, hist, reg>>
 
 Next == (\E p \in Posters : Begin(p) \/ Lookup(p) \/ Put(p) \/ Sub(p) \/ Fail(p))
-        \/ (\E d \in LateDests : RegData(d) \/ RegFire(d)) \/ AgentNext \/ AgentIdle \/ AgentResume \/ Shutdown \/ LoopExit
+        \/ (\E d \in LateDests : RegData(d) \/ RegTest(d) \/ RegFire(d)) \/ AgentNext \/ AgentIdle \/ AgentResume \/ Shutdown \/ LoopExit
 Spec == Init /\ [][Next]_vars
 
 \* ---- the property (C18) -------------------------------------------------
@@ -187,7 +196,7 @@ NothingLost == \A m \in AllMids : Posted(m) => (InSeq(handled, m) \/ InQueue(m) 
 \* deferred messages are delivered once their destination registers: when nothing is in progress, no message is left deferred
 \* for a registered computation
 AllIdle == \A p \in Posters : pc[p] = "idle"
-NoStuckDeferred == (AllIdle /\ ~shut) => \A i \in 1..Len(failed) : (Msg(failed[i]).dest \notin known \/ (Msg(failed[i]).dest \in LateDests /\ reg[Msg(failed[i]).dest] = "data"))
+NoStuckDeferred == (AllIdle /\ ~shut) => \A i \in 1..Len(failed) : (Msg(failed[i]).dest \notin known \/ (Msg(failed[i]).dest \in LateDests /\ reg[Msg(failed[i]).dest] \in {"data", "lock"}))
 \* clean shutdown: when the loop exits, everything queued before the shutdown has been handled
 ShutdownDrains == exited => \A m \in beforeShut : InSeq(handled, m)
 
